@@ -15,15 +15,20 @@ EXPLANATION = (
     "the data callback never reports completion early and _loop fires its Deferred only when told finished; "
     "(4) the only rename in offloaded.py is incoming -> encoding in _done after closing the file, _done is "
     "registered after _start_reading on the fetch chain with no failure-swallowing link before it, "
-    "_start_reading returns the Deferred it hands to _loop, and the fetch is bypassed only when the encoding file "
-    "exists; (5) CHKUploadHelper inherits the encoding pipeline of CHKUploader unchanged, starts it only after "
+    "_start_reading returns the Deferred it hands to _loop, the fetch is bypassed only when the encoding file "
+    "exists, and _start starts a chain only after testing and then switching a once-only flag (a second add_reader "
+    "must not start a second fetch into the same incoming file) and never switches the flag without starting a chain; (5) CHKUploadHelper inherits the encoding pipeline of CHKUploader unchanged, starts it only after "
     "fetcher and local reader are ready, reader and fetcher share the encoding file, incoming and encoding paths "
     "live in different directories and are functions of the storage index; (6) both upload paths get their read "
     "cap from the same closure, built from the uploadable's own key and the fields of the returned verify cap; "
     "(7) the assisted verify cap is built from the client's storage index / k / N / size and the helper's UEB "
     "hash, which the helper takes from the CHKUploader verify cap or from the hash of the fetched UEB, and the "
-    "already-present short cut is taken only with all N shares found and no upload helper is then created or "
-    "used; (8) the client serves read_encrypted at the requested offset; (9) every plaintext chunk the client "
+    "already-present short cut is taken only with all N shares found and a fetched UEB, no upload helper is then "
+    "created or used, and Helper._did_chk_check creates an upload helper only after seeing that _active_uploads has "
+    "none for the storage index and registers it on every path, and Helper._check_chk's callback returns the "
+    "HelperUploadResults whenever the check found the file; (8) the client serves read_encrypted at the "
+    "requested offset and advances its position in a callback of the read whose Deferred it returns, by the requested "
+    "length after a hash-only read; (9) every plaintext chunk the client "
     "consumes is fed to the single stateful AES-CTR encryptor whether or not hash_only is set, no step of the read "
     "chain RemoteEncryptedUploadable._read_encrypted -> EncryptAnUploadable.read_encrypted -> _read_encrypted -> "
     "_hash_and_encrypt_plaintext -> aes.encrypt_data(self._encryptor, chunk) is control-dependent on hash_only, and "
@@ -32,10 +37,14 @@ EXPLANATION = (
     "notify their observers / call Helper.upload_finished(self._storage_index, ..) on every path and evaluate nothing "
     "before that which raises in the early-failure state (state only a later chain stage creates, attributes still "
     "None, must-exist file operations, unless tested or inside try), and upload_finished removes the storage index "
-    "from _active_uploads under the key it was registered with. "
+    "from _active_uploads under the key it was registered with, which CHKUploadHelper.__init__ stores as "
+    "self._storage_index from its own argument. "
     "Undecided: byte equality of shares, crash interleavings between write and rename, foolscap transport, "
     "honesty of the helper and of the storage servers answering the already-present query; exceptions other than "
-    "the modelled early-failure ones inside the failure handlers.")
+    "the modelled early-failure ones inside the failure handlers; the value of the expected size (what get_size "
+    "answered); data still buffered in an incoming file that a failure handler left open (OS buffering / garbage "
+    "collection timing); uploadables whose read() is really asynchronous; liveness (a fetch that never starts or "
+    "spins) except where named above; edits inside the CHKUploader pipeline, which both upload paths share.")
 TECHNIQUE = "static analysis: CFG path rules with typestate monitors, Deferred-chain order, who-may-write sweeps, normal-form agreement"
 
 OFF = "immutable.offloaded"
@@ -205,6 +214,7 @@ def _truthy_const(e):
 
 def run(ctx: Context):
     idx = ctx.idx
+    _ATTR_TABLES.clear()      # per-run cache: another index (self-test overlay, sweep worker) must not see it
     folder = get_folder(idx)
     offmod = idx.module("allmydata." + OFF)
     cg = _Sweep(idx, offmod)
@@ -429,7 +439,7 @@ def run(ctx: Context):
         def done_edge(n, lab):
             return _done_fact(fnorm.edge_fact(n, lab), min_ok_at(n))
         rets = cfg.find(is_return)
-        fin = [n for n in rets if _truthy_const(n.ast.value)]
+        fin = [n for n in rets if _truthy_const(_ret_expr(fnorm, n))]
         if not fin:
             raise AnchorVanished("_fetch has no completion return")
         for n in fin:
@@ -439,8 +449,9 @@ def run(ctx: Context):
             r.violation(fn, fn.loc(n.ast), "_fetch reports completion without having checked that expected - have == 0 "
                         "(path: %s): the partial file would be moved into CHK_encoding and encoded" % w.brief(), w)
         for n in rets:
-            v = n.ast.value
-            if _truthy_const(v) or _falsy_const(v) or isinstance(v, ast.Name):
+            v = _ret_expr(fnorm, n)
+            if _truthy_const(v) or _falsy_const(v) or isinstance(v, ast.Name) \
+                    or (isinstance(n.ast.value, ast.Name) and isinstance(v, ast.Call)):
                 continue
             f = fnorm.at(n).cmp(v, True)
             r.require(_done_fact(f, min_ok_at(n)), fn, fn.loc(n.ast), "_fetch returns %s as its completion flag" % src(fn, v))
@@ -449,7 +460,7 @@ def run(ctx: Context):
         gnorm = FlowNorm(gd)
         r.site(gd, None, "data callback")
         for n in gd.cfg().find(is_return):
-            v = n.ast.value
+            v = _ret_expr(gnorm, n)
             if _falsy_const(v):
                 continue
             f = gnorm.at(n).cmp(v, True)
@@ -491,7 +502,7 @@ def run(ctx: Context):
     # -- 4. hand-over only after completion ---------------------------------
     with ctx.rule("C44.4", "R4/E7", "incoming -> encoding rename only in _done after close; _done follows _start_reading "
                   "on the fetch chain with nothing swallowing failures in between; _start_reading returns the Deferred "
-                  "given to _loop; the bypass needs the encoding file", expected=4) as r:
+                  "given to _loop; the bypass needs the encoding file; one chain per fetcher", expected=4) as r:
         done = idx.func(FETCH + "._done")
         n_ren = 0
         for cs in cg.calls_named(*RENAMES):
@@ -552,13 +563,32 @@ def run(ctx: Context):
         dv = dvars.pop()
         r.site(start, None, "fetch chain on %s" % dv)
 
+        # once-only flags: self.<x> = <constant> stored by _start itself (today: self._started = True)
+        def flag_store(n):
+            a = n.ast
+            if n.kind == "stmt" and isinstance(a, ast.Assign) and isinstance(a.value, ast.Constant):
+                return [(attr_path(t), bool(a.value.value)) for t in a.targets
+                        if (attr_path(t) or "").startswith("self.") and attr_path(t).count(".") == 1]
+            return []
+        flags = sorted({p for n in scfg.nodes for (p, _v) in flag_store(n)})
+        r.site(start, None, "once-only flags %s" % flags)
+
         def s_transfer(n, lab, nxt, st):
-            enc, seq = st
+            enc, seq, tested, armed, stored = st
             f = snorm.edge_fact(n, lab)
             if f and f[1] == "os.path.exists(self._encoding_file)" and f[0] in ("truth", "false"):
                 enc = "T" if f[0] == "truth" else "F"
+            for p in flags:
+                v = _flag_on_edge(snorm, n, lab, p)
+                if v is not None:
+                    tested = tuple(sorted(set(tested) | {(p, v)}))
             if lab == "exc":
-                return (enc, seq)
+                return (enc, seq, tested, armed, stored)
+            for (p, val) in flag_store(n):
+                stored = True
+                # the flag is switched to the value under which the test just passed sends later calls away
+                if (p, "F" if val else "T") in tested:
+                    armed = True
             if n.kind == "stmt" and dv in node_stores(n):
                 v = assign_value(n, dv)
                 is_fetch = v is not None and any(
@@ -570,16 +600,31 @@ def run(ctx: Context):
                 x = reg_by_call.get(id(c))
                 if x is not None and x.recv == dv:
                     seq = seq + ((x.kind, x.target_name()),)
-            return (enc, seq)
-        visited, parent = explore(scfg, ("?", ()), s_transfer)
+            return (enc, seq, tested, armed, stored)
+        visited, parent = explore(scfg, ("?", (), (), False, False), s_transfer)
         r.count(len(visited))
         seen_fetch = False
+        once_reported = set()
         for (nid, st) in sorted(visited, key=lambda x: (x[0], str(x[1]))):
             if scfg.nodes[nid].kind != "exit":
                 continue
-            enc, seq = st
+            enc, seq, tested, armed, stored = st
             if not seq or seq[0][0] != "src":
-                continue     # the early 'already started' return
+                # the early 'already started' return: it must not have marked the fetcher as started
+                if stored and "no-chain" not in once_reported:
+                    once_reported.add("no-chain")
+                    r.violation(start, start.loc(), "_start can mark the fetcher as started (%s) and finish without a fetch or "
+                                "bypass chain (path: %s): the fetch never runs, when_done() never fires and the resumed "
+                                "upload never completes" % (", ".join(flags), witness(scfg, parent, (nid, st)).brief()),
+                                witness(scfg, parent, (nid, st)))
+                continue
+            if not armed and "twice" not in once_reported:
+                once_reported.add("twice")
+                w0 = witness(scfg, parent, (nid, st))
+                r.violation(start, start.loc(), "_start can start a chain without having tested and then switched a once-only "
+                            "flag (self._started) (path: %s): every add_reader - a client that reconnects to the active "
+                            "upload helper - starts another fetch that appends to the same CHK_incoming file, so the "
+                            "ciphertext is duplicated" % w0.brief(), w0)
             names = [t for (_k, t) in seq[1:]]
             w = witness(scfg, parent, (nid, st))
             if seq[0][1] == "fetch":
@@ -615,7 +660,7 @@ def run(ctx: Context):
         dv_ = _reaching_value(rn, ln, dname)
         r.require(isinstance(dv_, ast.Call) and call_tail(dv_) == "Deferred" and not dv_.args, sr, sr.loc(lcalls[0]),
                   "_loop is given %s, not a fresh Deferred" % (src(sr, dv_) if dv_ is not None else dname))
-        is_ret_d = lambda n: is_return(n) and isinstance(n.ast.value, ast.Name) and n.ast.value.id == dname
+        is_ret_d = lambda n: _returns_var(rn, n, dname)
         for (n, w) in find_path_avoiding(rcfg, lambda n: n.kind == "exit", gate_node=is_ret_d, skip_exc_edges=True):
             r.violation(sr, sr.loc(), "_start_reading can finish without returning the Deferred that _loop fires: _done "
                         "would move a partial file into CHK_encoding (path: %s)" % w.brief(), w)
@@ -783,11 +828,11 @@ def run(ctx: Context):
         r.require(len(starts) >= 2 and all(x.recv == treg.recv for x in starts), gs, gs.loc(),
                   "uploader.start links are not on the Deferred %s that derives the read cap" % treg.recv)
         for n in cfg.find(is_return):
-            if any(is_treg(m) for m in cfg.nodes) and n.ast.value is not None and attr_path(n.ast.value) != treg.recv \
-                    and not contains_call(n.ast.value, "start"):
+            if any(is_treg(m) for m in cfg.nodes) and n.ast.value is not None and not _returns_var(gnorm, n, treg.recv) \
+                    and not any(contains_call(x, "start") for x in _ret_chain(gnorm, n)):
                 r.violation(gs, gs.loc(n.ast), "_got_size returns %s, not the Deferred carrying the read-cap link" % src(gs, n.ast.value))
         # every path from the registration leads to `return d2`
-        for (n, w) in find_path_from_to_avoiding(cfg, is_treg, lambda m: is_return(m) and attr_path(m.ast.value) == treg.recv):
+        for (n, w) in find_path_from_to_avoiding(cfg, is_treg, lambda m: _returns_var(gnorm, m, treg.recv)):
             r.violation(gs, gs.loc(n.ast), "read-cap Deferred is not returned", w)
         # the encrypted uploadable wraps the same uploadable whose key makes the read cap
         eus = [c for c in _calls(gs, "EncryptAnUploadable")]
@@ -838,15 +883,17 @@ def run(ctx: Context):
                   and re.match(r"^(\w+\.)*CHKFileURI\(.*\)\.to_string\(\)$", pn.norm(_node_of(put, sets[0]), sets[0].args[0])) is not None,
                   put, put.loc(), "the read cap is not stored into the upload results with set_uri")
         for n in put.cfg().find(is_return):
-            r.require(attr_path(n.ast.value) == ur_p, put, put.loc(n.ast), "returns %s" % src(put, n.ast.value))
+            r.require(_returns_var(pn, n, ur_p), put, put.loc(n.ast), "returns %s" % src(put, n.ast.value))
+        tn_ = FlowNorm(turn)
         for n in turn.cfg().find(is_return):
-            r.require(attr_path(n.ast.value) in kv, turn, turn.loc(n.ast), "turn_verifycap_into_read_cap returns %s, "
+            r.require(any(_returns_var(tn_, n, k_) for k_ in kv), turn, turn.loc(n.ast), "turn_verifycap_into_read_cap returns %s, "
                       "not the Deferred that stores the read cap" % src(turn, n.ast.value))
 
     # -- 7. assisted verify cap / helper result fields ----------------------
     with ctx.rule("C44.7", "R6/R1", "AssistedUploader builds the verify cap from its own SI/k/N/size and the helper's UEB "
                   "hash; the helper derives that hash from the CHKUploader verify cap or from the fetched UEB; "
-                  "already-present needs all N shares and creates/uses no upload helper", expected=7) as r:
+                  "already-present needs all N shares and a UEB and creates/uses no upload helper; one registered upload "
+                  "helper per storage index", expected=7) as r:
         au = UP + ":AssistedUploader"
         bv = idx.func(au + "._build_verifycap")
         hp = first_positional_params(bv)[0]
@@ -927,18 +974,42 @@ def run(ctx: Context):
         _require_store(r, chk, hv2 + ".uri_extension_data", lambda s: s == rp + "[1]", "element 1 of the checker's result")
         cfgk = chk.cfg()
         kn = FlowNorm(chk)
-        nonnull = lambda n: is_return(n) and not _falsy_const(n.ast.value)
+        nonnull = lambda n: is_return(n) and not _falsy_const(_ret_expr(kn, n))
         for (n, w) in find_path_avoiding(cfgk, nonnull, gate_edge=lambda n, lab: kn.edge_fact(n, lab) == ("truth", rp, None)):
             r.violation(chk, chk.loc(n.ast), "already-present results are returned although the check found nothing", w)
+
+        def found_transfer(n, lab, nxt, st):
+            if lab == "exc":
+                return None
+            hv_, ok = st
+            if rp in node_stores(n):
+                hv_ = "?"
+            v = _flag_on_edge(kn, n, lab, rp)
+            if v is not None:
+                if hv_ != "?" and hv_ != v:
+                    return None
+                hv_ = v
+            if _returns_var(kn, n, hv2):
+                ok = True
+            return (hv_, ok)
+        fvis, fpar = explore(cfgk, ("?", False), found_transfer)
+        r.count(len(fvis))
+        for (nid, st) in sorted(fvis):
+            if cfgk.nodes[nid].kind == "exit" and st == ("T", False):
+                w = witness(cfgk, fpar, (nid, st))
+                r.violation(chk, chk.loc(), "the check found the file in the grid but %s does not return the "
+                            "HelperUploadResults (path: %s): the helper does not report the file as present and it is "
+                            "uploaded again" % (short(chk), w.brief()), w)
+                break
         dn = idx.func(CUF + "._done")
         dnn = FlowNorm(dn)
         dcfg = dn.cfg()
-        pos = [n for n in dcfg.find(is_return) if not _falsy_const(n.ast.value)]
+        pos = [n for n in dcfg.find(is_return) if not _falsy_const(_ret_expr(dnn, n))]
         if not pos:
             raise AnchorVanished("CHKCheckerAndUEBFetcher._done has no positive return")
         for n in pos:
             r.site(dn, n.ast, "file-is-present verdict")
-            v = n.ast.value
+            v = _ret_expr(dnn, n)
             ok = isinstance(v, ast.Tuple) and len(v.elts) == 3 and attr_path(v.elts[1]) == "self._ueb_data" \
                 and attr_path(v.elts[2]) == "self._ueb_hash"
             r.require(ok, dn, dn.loc(n.ast), "checker returns %s; Helper._check_chk expects (sharemap, ueb_data, ueb_hash)" % src(dn, v))
@@ -950,6 +1021,19 @@ def run(ctx: Context):
         for (n, w) in find_path_avoiding(dcfg, lambda x: x in pos, gate_edge=all_found):
             r.violation(dn, dn.loc(n.ast), "the file is reported as already present without all N shares having been found "
                         "(path: %s)" % w.brief(), w)
+        def ueb_known(n, lab):
+            f = dnn.edge_fact(n, lab)
+            if not f:
+                return False
+            if f[0] == "truth":
+                return f[1] in ("self._ueb_data", "self._ueb_hash")
+            return f[0] in ("is not", "!=") and "None" in (f[1], f[2]) \
+                and bool({f[1], f[2]} & {"self._ueb_data", "self._ueb_hash"})
+        for (n, w) in find_path_avoiding(dcfg, lambda x: x in pos, gate_edge=ueb_known,
+                                         kill=stores_any(["self._ueb_data", "self._ueb_hash"])):
+            r.violation(dn, dn.loc(n.ast), "the file-is-present verdict is reached without having seen that a UEB was fetched "
+                        "(path: %s): with a UEB the file is never reported as present (it is uploaded again), without one "
+                        "the verdict carries None as UEB hash" % w.brief(), w)
         gu = idx.func(CUF + "._got_uri_extension")
         up_ = first_positional_params(gu)[0]
         r.site(gu, None, "UEB hash of the fetched UEB")
@@ -969,8 +1053,38 @@ def run(ctx: Context):
         for (n, w) in find_path_avoiding(dc.cfg(), has_call("_make_chk_upload_helper"),
                                          gate_edge=lambda n, lab: dcn.edge_fact(n, lab) == ("false", ap, None)):
             r.violation(dc, dc.loc(n.ast), "an upload helper is created although the file was found in the grid", w)
+        # one upload helper (one fetcher, one CHK_incoming file) per storage index: creation only when the registry has
+        # no entry for that storage index, and the new upload helper is registered on every path
+        for n in mk:
+            for c in node_calls(n):
+                if call_tail(c) != "_make_chk_upload_helper" or not c.args:
+                    continue
+                key = dcn.norm(n, c.args[0])
+                getre = re.compile(r"^self\._active_uploads\.get\(%s(, None)?\)$" % re.escape(key))
+
+                def absent(m, lab, _key=key, _getre=getre):
+                    f = dcn.edge_fact(m, lab)
+                    if not f:
+                        return False
+                    if f[0] == "not in" and f[1] == _key and f[2] == "self._active_uploads":
+                        return True
+                    if f[0] == "false" and _getre.match(f[1] or ""):
+                        return True
+                    return f[0] in ("is", "==") and "None" in (f[1], f[2]) \
+                        and any(_getre.match(x or "") for x in (f[1], f[2]))
+                for (n2, w) in find_path_avoiding(dc.cfg(), lambda x, _n=n: x is _n, gate_edge=absent,
+                                                  kill=stores("self._active_uploads[]")):
+                    r.violation(dc, dc.loc(c), "an upload helper is created for %s without having seen that _active_uploads has "
+                                "none for it (path: %s): when the same file is asked for twice before the first check "
+                                "finishes, two fetchers append to the same CHK_incoming file and the ciphertext is "
+                                "duplicated" % (key, w.brief()), w)
+        is_reg = lambda n: n.kind == "stmt" and "self._active_uploads[]" in node_stores(n) and isinstance(n.ast, ast.Assign)
+        for (n, w) in find_path_from_to_avoiding(dc.cfg(), lambda x: any(x is m for m in mk) and not is_reg(x), is_reg):
+            r.violation(dc, dc.loc(n.ast), "the new upload helper is not entered into _active_uploads on every path (path: %s): "
+                        "the next request for the same file creates a second one fetching into the same CHK_incoming file"
+                        % w.brief(), w)
         for n in dc.cfg().find(is_return):
-            v = n.ast.value
+            v = _ret_expr(dcn, n)
             if isinstance(v, ast.Tuple) and len(v.elts) == 2 and attr_path(v.elts[0]) == ap:
                 r.require(_falsy_const(v.elts[1]), dc, dc.loc(n.ast), "already-present answer also carries an upload helper")
         ch = idx.func(au + "._contacted_helper")
@@ -997,12 +1111,13 @@ def run(ctx: Context):
         rp_ = first_positional_params(ch)[0]
         for n in ccfg.find(is_return):
             v = n.ast.value
-            if isinstance(v, ast.Name) and not any(v.id == x.recv for x in _regs(ch)):
+            if isinstance(v, ast.Name) and not any(_returns_var(chn, n, x.recv) for x in _regs(ch) if x.recv):
                 r.require(chn.norm(n, v) == rp_ + "[0]", ch, ch.loc(n.ast), "returns %s instead of the helper's results" % chn.norm(n, v))
 
     # -- 8. client side: serve the requested offset -------------------------
     with ctx.rule("C44.8", "R1", "RemoteEncryptedUploadable.remote_read_encrypted: skips (hash-only) up to the requested "
-                  "offset, never backwards, then reads `length` bytes for real", expected=2) as r:
+                  "offset, never backwards, then reads `length` bytes for real; the position advances in a callback of "
+                  "the read", expected=2) as r:
         rr = idx.func(UP + ":RemoteEncryptedUploadable.remote_read_encrypted")
         off, ln = first_positional_params(rr)[:2]
         cfg = rr.cfg()
@@ -1037,9 +1152,9 @@ def run(ctx: Context):
         r.require(x.kind == "cb" and attr_path(arg(c, 0, "length")) == ln and isinstance(ho, ast.Constant) and ho.value is False,
                   f, f.loc(c), "after the skip the client reads %s" % src(f, c))
         rets = [n for n in f.cfg().find(is_return)]
-        r.require(all(isinstance(n.ast.value, ast.Call) and n.ast.value is c for n in rets) and bool(rets), f, f.loc(),
-                  "the data read is not what is returned to the helper")
         fnn = FlowNorm(f)
+        r.require(all(_ret_expr(fnn, n) is c for n in rets) and bool(rets), f, f.loc(),
+                  "the data read is not what is returned to the helper")
         at = lambda n, lab: fnn.edge_fact(n, lab) in (("==", "self._offset", off), ("==", off, "self._offset"))
         for (n, w) in find_path_avoiding(f.cfg(), lambda m: any(cc is c for cc in node_calls(m)), gate_edge=at):
             r.violation(f, f.loc(n.ast), "ciphertext is served without checking that the reader is at the requested offset", w)
@@ -1048,6 +1163,56 @@ def run(ctx: Context):
         adv = [n for n in ast.walk(re_.node) if isinstance(n, ast.AugAssign) and attr_path(n.target) == "self._offset"]
         r.require(len(adv) >= 1 and all(isinstance(n.op, ast.Add) for n in adv), re_, re_.loc(),
                   "_read_encrypted no longer advances self._offset")
+        # ... in a callback that really runs: registered on the Deferred of self._eu.read_encrypted(..), which is returned
+        owners = {_innermost(re_, n).qual: _innermost(re_, n) for n in adv}
+        ren_ = FlowNorm(re_)
+        rregs = _regs(re_)
+        rdv = {attr_path(t) for n in _own(re_) if isinstance(n, ast.Assign)
+               and any(isinstance(c, ast.Call) and call_name(c) == "self._eu.read_encrypted" for c in own_nodes(n.value))
+               for t in n.targets}
+        rdv.discard(None)
+        for g in owners.values():
+            r.site(g, None, "offset advance")
+            if g is re_:
+                continue
+            hooked = [x for x in rregs if x.kind in ("cb", "both", "pair") and x.recv in rdv
+                      and _cb_func(idx, re_, x.target) is g]
+            r.require(bool(hooked), re_, re_.loc(g.node), "%s advances self._offset but is not a callback of the Deferred of "
+                      "self._eu.read_encrypted(..): the reader's position is lost, the next request looks like a skip and "
+                      "the wrong ciphertext range is served" % g.name)
+            # a hash-only read delivers no data: its advance must be the requested length, not the size of the result
+            rp_len, rp_flag = first_positional_params(re_)[:2]
+            gcfg_, gnorm_ = g.cfg(), FlowNorm(g)
+
+            def by_length(n, _g=g):
+                a = n.ast
+                return n.kind == "stmt" and isinstance(a, ast.AugAssign) and isinstance(a.op, ast.Add) \
+                    and attr_path(a.target) == "self._offset" and rp_len in depends_on(_g, a.value)
+
+            def adv_transfer(n, lab, nxt, st):
+                if lab == "exc":
+                    return None
+                hv_, ok = st
+                v = _flag_on_edge(gnorm_, n, lab, rp_flag)
+                if v is not None:
+                    if hv_ != "?" and hv_ != v:
+                        return None
+                    hv_ = v
+                return (hv_, ok or by_length(n))
+            avis, apar = explore(gcfg_, ("?", False), adv_transfer)
+            r.count(len(avis))
+            for (nid, st) in sorted(avis):
+                if gcfg_.nodes[nid].kind == "exit" and st[0] != "F" and not st[1]:
+                    w = witness(gcfg_, apar, (nid, st))
+                    r.violation(g, g.loc(), "after a %s read %s does not advance self._offset by the requested %s (path: %s): "
+                                "a skip returns no data, so the position stays behind the requested offset and the resumed "
+                                "transfer is refused or served from the wrong range" % (rp_flag, g.name, rp_len, w.brief()), w)
+                    break
+            for x in hooked:
+                for (n, w) in find_path_from_to_avoiding(re_.cfg(),lambda m, _c=x.call: any(c is _c for c in node_calls(m)),
+                                                         lambda m, _v=x.recv: _returns_var(ren_, m, _v)):
+                    r.violation(re_, re_.loc(n.ast), "the Deferred that advances self._offset is not returned: the caller "
+                                "serves the next range before the position is updated", w)
 
     # -- 9. keystream continuity on the client ------------------------------
     with ctx.rule("C44.9", "R10/R6", "every plaintext chunk the client consumes runs through the one stateful AES-CTR "
@@ -1268,6 +1433,25 @@ def run(ctx: Context):
                       "index) would not remove it" % (key, src(dc, v.args[0]) if isinstance(v, ast.Call) and v.args else src(dc, a.value)))
         if n_reg == 0:
             raise AnchorVanished("_did_chk_check no longer registers the upload helper in _active_uploads")
+        # ... and self._storage_index, the key both terminal handlers deregister with, is the constructor's argument
+        # (CHKUploader.__init__ leaves it None until the encoder is set up, i.e. after the fetch)
+        mkf = idx.func(HELPER + "._make_chk_upload_helper")
+        ucalls = _calls(mkf, "chk_upload")
+        if len(ucalls) != 1:
+            raise AnchorVanished("_make_chk_upload_helper no longer calls self.chk_upload")
+        mkn = FlowNorm(mkf)
+        si_params = [p_ for p_, e in _bind(init, ucalls[0]).items()
+                     if mkn.norm(_node_of(mkf, ucalls[0]), e) == first_positional_params(mkf)[0]]
+        inorm_ = FlowNorm(init)
+        own_si = [(n, inorm_.norm(n, assign_value(n, "self._storage_index"))) for n in init.cfg().nodes
+                  if n.kind == "stmt" and _inner(init, n.ast) and assign_value(n, "self._storage_index") is not None]
+        r.site(init, own_si[0][0].ast if own_si else None, "deregistration key")
+        r.require(bool(own_si) and all(v in si_params for (_n, v) in own_si), init,
+                  init.loc(own_si[0][0].ast) if own_si else init.loc(),
+                  "CHKUploadHelper.__init__ sets self._storage_index to %s, not to the storage index it is created for (%s): "
+                  "until the encoder is set up it is None / another value, so a failed fetch calls "
+                  "Helper.upload_finished with a key that is not in _active_uploads and the dead upload helper stays "
+                  "registered" % ([v for (_n, v) in own_si] or "nothing", ", ".join(si_params) or "?"))
         # (d) the fetcher: failures reach _failed, which tells the upload helper
         start = idx.func(FETCH + "._start")
         sregs = _regs(start)
@@ -1398,6 +1582,44 @@ def _hur_var(fn):
             if p:
                 return p
     raise AnchorVanished("%s no longer builds HelperUploadResults" % fn.qual)
+
+
+def _ret_chain(fnorm, n, depth=4):
+    """The expression returned at CFG node n followed back through plain local copies:
+    [returned expr, the unique reaching definition of that name, ...] (rv = E; return rv  ->  [rv, E])."""
+    e = n.ast.value
+    out = [e]
+    node = n
+    while depth > 0 and isinstance(e, ast.Name):
+        ds = fnorm.rd.get(node.id, {}).get(e.id)
+        if not ds or len(ds) != 1:
+            break
+        (d,) = tuple(ds)
+        if d < 0:
+            break
+        node = fnorm.cfg.nodes[d]
+        e = assign_value(node, e.id)
+        if e is None:
+            break
+        out.append(e)
+        depth -= 1
+    return out
+
+
+def _ret_expr(fnorm, n):
+    """What `return x` at node n returns: the first non-name of the copy chain (a parameter / ambiguous name stays a name)."""
+    ch = _ret_chain(fnorm, n)
+    for e in ch:
+        if e is not None and not isinstance(e, ast.Name):
+            return e
+    return ch[-1]
+
+
+def _returns_var(fnorm, n, var):
+    """CFG node n is `return <var>`, directly or through local copies (rv = var; return rv)."""
+    if not is_return(n) or n.ast.value is None:
+        return False
+    return any(e is not None and attr_path(e) == var for e in _ret_chain(fnorm, n))
 
 
 def _names_var(fnorm, n, lab, var):
